@@ -6,6 +6,7 @@
  *   GE_LOG=<path>       append one line per call: "<i> <len> <hex bytes>" or
  *                       "<i> <len> ERR <errno>" (single write, O_APPEND).
  *   GE_FAIL_FROM=<k>    calls with index >= k fail with errno EIO.
+ *   GE_FAIL_AT=<k>      only the call with index k fails with errno EIO (a transient failure).
  *   GE_JITTER_US=<max>  schedule perturbation: every call first sleeps a pseudo-random time below
  *                       <max> microseconds scaled by a per-thread slowness factor 0..7/4, so that
  *                       which worker thread of a vanity search wins varies between runs.
@@ -70,6 +71,12 @@ int getentropy(void *buffer, size_t len) {
     uint64_t i = __atomic_fetch_add(&counter, 1, __ATOMIC_SEQ_CST);
     const char *fail_from = getenv("GE_FAIL_FROM");
     if (fail_from && i >= strtoull(fail_from, NULL, 10)) {
+        log_call(i, len, NULL, EIO);
+        errno = EIO;
+        return -1;
+    }
+    const char *fail_at = getenv("GE_FAIL_AT");
+    if (fail_at && i == strtoull(fail_at, NULL, 10)) {
         log_call(i, len, NULL, EIO);
         errno = EIO;
         return -1;
